@@ -168,18 +168,24 @@ def parse_nlist(out):
     return [int(x) for x in re.findall(r'\d+', body.replace('%N', '').replace('%nat', '').replace('%Z', ''))]
 
 
-def model_mismatches(header, case_terms, check_fn, shard=400, timeout=600):
+def model_mismatches(header, case_terms, check_fn, shard=400, timeout=600, ctype=None):
     """Evaluate `check_fn : case -> bool` (true = model agrees with the recorded implementation result) on
     every case term inside Coq (vm_compute), sharded; returns (sorted indices of disagreeing cases, errors)."""
     texts, offs = [], []
-    for off in range(0, len(case_terms), shard):
-        chunk = case_terms[off:off + shard]
+    off = 0
+    while off < len(case_terms):
+        # shard by count and by literal size: coqc parses about 30 KB of list literals per second
+        end, size = off, 0
+        while end < len(case_terms) and end - off < shard and (size < 120000 or end == off):
+            size += len(case_terms[end]); end += 1
+        chunk = case_terms[off:end]
         body = ';\n  '.join(chunk)
-        texts.append(header + '\nDefinition cases := [\n  %s\n].\n' % body +
+        texts.append(header + '\nDefinition cases %s:= [\n  %s\n].\n' % (': list (%s) ' % ctype if ctype else '', body) +
                      'Fixpoint bad_ix {A} (f : A -> bool) (i : N) (l : list A) : list N :=\n'
                      '  match l with [] => [] | x :: r => if f x then bad_ix f (N.succ i) r else i :: bad_ix f (N.succ i) r end.\n'
                      'Eval vm_compute in (bad_ix (%s) 0%%N cases).\n' % check_fn)
         offs.append(off)
+        off = end
     bad, errs = [], []
     for (rc, out), off in zip(coq_eval_many(texts, timeout), offs):
         ix = parse_nlist(out) if rc == 0 else None
